@@ -114,6 +114,7 @@ func (v *VMap) validate(prefix string, tv reflect.Value) *VMap {
 						fieldName:  key,
 						cusMsg:     cusMsg,
 						reflectVal: val,
+						scope:      prefix,
 					})
 				default:
 					v.errBuf.WriteString(GetJoinFieldErr("", v.getKey(prefix, key), "valid \""+validName+"\" is no support"))
